@@ -25,4 +25,35 @@ func init() {
 				Params: [2]map[string]int64{P("maxBlocks", 2), P("maxBlocks", 3)},
 				Assumptions: []string{"inside a literal block adjacent bytes differ (block boundaries unconstrained)"}},
 		}})
+
+	entropyCut := []string{"(*standard.HuffmanEncoder).EncodeLosslessDifference/WriteBits record the difference sequence, (*standard.HuffmanDecoder).Decode/ReceiveLosslessDifference replay it (engine only; the native replay runs the real coder). Justified by VerifC02Category + VerifC02BitChannel, which decide that the real pair is inverse for every 16-bit difference."}
+	container := "samples occupy the low P bits of an 8-bit (P<=8) or 16-bit little-endian container, high bits zero (the property's own domain; encoded as intrinsic symbol ranges)"
+	reg(Check{Property: "C02",
+		Assumptions: []string{container},
+		Harnesses: []Harness{
+			{Pkg: "jpeg/lossless", Fn: "VerifC02Scan", Desc: "real pixelsToSamples/encodeScan -> decodeScan/samplesToPixels, byte identity, every predictor 1..7 and precision 2..16, all samples symbolic",
+				Bounds: [2]string{"geometries 1x1,2x1,1x2,2x2,3x2 (1 component)", "+ 2x3, 3x3, 1x1x3, 2x2x3"}, Stubs: entropyCut},
+			{Pkg: "jpeg/lossless", Fn: "VerifC02Public", Desc: "public Encode -> Decode (headers, DHT, SOS, predictor 0..7 incl. automatic selection), all samples symbolic",
+				Bounds: [2]string{"geometries 1x1,2x1,1x2,2x2; P 2..16", "+ 3x2,2x3,3x3,1x1x3,2x2x3"}, Stubs: append([]string{"(*Encoder).optimizeHuffmanTables replaced by a fixed flat 17-symbol table (engine only)"}, entropyCut...)},
+			{Pkg: "jpeg/lossless", Fn: "VerifC02Category", Desc: "every difference -32768..32767 (one symbolic variable) through the real EncodeLosslessDifference/WriteBits/Flush -> Decode/ReceiveLosslessDifference/ReadBits with two real optimal tables",
+				Bounds: [2]string{"all 65536 differences, 2 histograms, 1 trailing byte", "same"}},
+			{Pkg: "jpeg/lossless", Fn: "VerifC02BitChannel", Desc: "K WriteBits calls of widths from {1,2,7,8,9,15,16} with symbolic values, Flush, read back; stuffing checked on the bytes",
+				Bounds: [2]string{"K <= 2", "K <= 3"}, Params: [2]map[string]int64{P("maxK", 2), P("maxK", 3)}},
+			{Pkg: "jpeg/lossless", Fn: "VerifC02EndToEnd", Desc: "public Encode -> Decode with nothing stubbed (real optimal Huffman tables from symbolic histograms)",
+				Bounds: [2]string{"P in {2,3}; 1x1,2x1,1x2; predictor 0..7", "P in {2,3,4,8,12,15,16}; + 2x2, 1x1x3"}},
+			{Pkg: "jpeg/lossless14sv1", Fn: "VerifC02SV1", Desc: "SV1 public Encode -> Decode, all samples symbolic, P 2..16",
+				Bounds: [2]string{"1x1,2x1,1x2,2x2,3x2", "+ 1x1x3,2x3,3x3,2x2x3"}, Stubs: append([]string{"(*Encoder).optimizeHuffmanTables replaced by a fixed flat 17-symbol table (engine only)"}, entropyCut...)},
+			{Pkg: "jpeg/lossless14sv1", Fn: "VerifC02SV1EndToEnd", Desc: "SV1 public Encode -> Decode, nothing stubbed",
+				Bounds: [2]string{"P in {2,3,16}; 1x1,2x1,1x2", "P in {2,3,4,8,12,15,16}; + 2x2, 1x1x3"}},
+		}})
+	reg(Check{Property: "C13",
+		Assumptions: []string{container, "reference = 40-line transcription of T.81 H.1.2.1 / Table H.1 in the harness (refPredict/refDiffs/refDecode), executed symbolically alongside the real code"},
+		Harnesses: []Harness{
+			{Pkg: "jpeg/lossless", Fn: "VerifC13EncVsRef", Desc: "differences emitted by the real encodeScan == T.81 Annex H differences; independent reference decoder recovers the image from them",
+				Bounds: [2]string{"predictor 1..7, P 2..16, geometries <= 3x2", "+ 2x3,3x3,1x1x3,2x2x3"}, Stubs: entropyCut[:1]},
+			{Pkg: "jpeg/lossless", Fn: "VerifC13DecVsRef", Desc: "real decodeScan fed with the reference encoder's differences returns the source bytes",
+				Bounds: [2]string{"predictor 1..7, P 2..16, geometries <= 3x2", "+ 2x3,3x3,1x1x3,2x2x3"}, Stubs: entropyCut[:1]},
+			{Pkg: "jpeg/lossless", Fn: "VerifC13Headers", Desc: "conformant 1x1 stream built in the harness with symbolic table destinations Td in 0..3 per component and symbolic Ss in 1..7, decoded by the real Decode",
+				Bounds: [2]string{"1 and 3 components", "same"}},
+		}})
 }
